@@ -158,6 +158,29 @@ theorem validateContinue_ok {s : State} {isAlias : Bool} {a : Acct} {asset offer
       subst h1; subst h2
       exact ⟨(getBO_some hg).1, by assumption, by assumption⟩
 
+theorem validateContinue_cases {s : State} {isAlias : Bool} {a : Acct} {asset offer : Nat} {cont : Option (Bool × Nat)}
+    {r : Option (Nat × BuyOrder)} (h : validateContinue s isAlias a asset offer cont = .ok r) :
+    (cont = none ∧ r = none) ∨
+    (∃ pfx id bo, cont = some (pfx, id) ∧ r = some (id, bo) ∧ AMap.get s.bos id = some bo ∧ bo.offer < offer ∧
+      bo.buyer = a ∧ bo.isAlias = isAlias ∧ bo.asset = asset) := by
+  unfold validateContinue at h
+  cases cont with
+  | none =>
+    simp only [pure, Except.pure] at h
+    injection h with h
+    exact Or.inl ⟨rfl, h.symm⟩
+  | some c =>
+    obtain ⟨pfx, i⟩ := c
+    simp only at h
+    cases hg : getBO s pfx i with
+    | none => simp [hg] at h
+    | some bo' =>
+      simp only [hg] at h
+      mcases' h
+      injection h with h
+      rename (bo'.isAlias = isAlias ∧ bo'.asset = asset) => hx
+      exact Or.inr ⟨pfx, i, bo', rfl, h.symm, (getBO_some hg).1, by assumption, by assumption, hx.1, hx.2⟩
+
 theorem putBO_inv {s s' : State} {isAlias : Bool} {a : Acct} {asset : Nat} {dst : Chain} {offer : Nat}
     {ex : Option (Nat × BuyOrder)} (hI : Inv s)
     (hex : ∀ id bo, ex = some (id, bo) → AMap.get s.bos id = some bo ∧ bo.offer < offer ∧ bo.buyer = a)
